@@ -40,6 +40,7 @@ var Runners = map[string]func(tier string) int{
 	"C04": func(t string) int { return RunUnpackSafety("C04", t) },
 	"C15": RunC15,
 	"C03": RunC03,
+	"C16": RunC16,
 	"C12": RunC12,
 	"C18": RunC18,
 	"C09": RunC09,
